@@ -13,6 +13,7 @@ package tiff
 //@   props C12 C07 C08 C01 C02
 //@   entry
 //@   requires r != nil
+//@   modifies stream(r)
 //@   ghost o int = discarded
 //@   ensures [C12 C07 C08] err != nil ==> err == meta.ErrNoExif
 //@   ensures [C12 C07 C08] err == nil ==> header.FirstIfd == ifds.IFD0 && header.ExifLength == 0
